@@ -48,18 +48,30 @@ _built = {"ok": None}
 
 
 def build_replay():
-    """(Re)builds /verif/replay against /repo's current working tree. Returns path of the binary or None."""
+    """(Re)builds /verif/replay against the repository's current working tree (VERIF_REPO, default /repo).
+    Returns path of the binary or None. For a repository other than /repo the crate is copied to a temporary
+    directory with its path dependency redirected (used when a check is pointed at a scratch worktree)."""
     if _built["ok"] is not None:
         return _built["ok"]
     import shutil
+    import tempfile
+    import atexit
     repo = os.environ.get("VERIF_REPO", "/repo")
-    shutil.copy(os.path.join(repo, "Cargo.lock"), os.path.join(REPLAY_DIR, "Cargo.lock"))
+    crate, target = REPLAY_DIR, REPLAY_TARGET
+    if os.path.realpath(repo) != "/repo":
+        crate = tempfile.mkdtemp(prefix="ocv-replay-")
+        atexit.register(shutil.rmtree, crate, True)
+        shutil.copytree(os.path.join(REPLAY_DIR, "src"), os.path.join(crate, "src"))
+        toml = open(os.path.join(REPLAY_DIR, "Cargo.toml")).read().replace('"/repo/core"', f'"{repo}/core"')
+        open(os.path.join(crate, "Cargo.toml"), "w").write(toml)
+        target = os.path.join(crate, "target")
+    shutil.copy(os.path.join(repo, "Cargo.lock"), os.path.join(crate, "Cargo.lock"))
     env = dict(os.environ)
     env.update({"CARGO_NET_OFFLINE": "true"})
     env.pop("RUSTFLAGS", None)
-    p = subprocess.run(["cargo", "build", "--offline", "--target-dir", REPLAY_TARGET], cwd=REPLAY_DIR, env=env,
-                       capture_output=True, text=True, timeout=1200)
-    binp = os.path.join(REPLAY_TARGET, "debug", "ocv-replay")
+    p = subprocess.run(["cargo", "build", "--offline", "--target-dir", target], cwd=crate, env=env,
+                       capture_output=True, text=True, timeout=1800)
+    binp = os.path.join(target, "debug", "ocv-replay")
     _built["ok"] = binp if p.returncode == 0 and os.path.isfile(binp) else False
     if not _built["ok"]:
         _built["err"] = (p.stderr or "")[-2000:]
@@ -113,6 +125,47 @@ def _replay_select_timeout(prop, harness, rec):
         if el is not None and (el < u or el > u + 1000 + 15000 + u // 5):
             return {"status": "reproduced", "detail": f"select(timeout={u}us) returned after {el}us", "tried": tried}
     return {"status": "not_reproduced", "detail": "elapsed time within [T, T + 1ms + slack] for all replayed values", "tried": tried}
+
+
+def _timed_native(case_args, t_us, what):
+    """Nothing becomes ready: the call must not come back before t_us. Long timeouts are observed for 3 s only."""
+    budget = min(t_us / 1e6, 3.0) + 2.0
+    r = run_case(case_args, budget)
+    if "error" in r:
+        return {"status": "unavailable", "detail": r["error"]}
+    if r["timed_out"]:
+        if t_us / 1e6 > 3.0:
+            return {"status": "not_reproduced", "detail": f"{what} still waiting after {budget:.1f}s (requested {t_us}us)", "tried": [r]}
+        return {"status": "reproduced", "detail": f"{what} still waiting after {budget:.1f}s although only {t_us}us were requested", "tried": [r]}
+    o = r["out"]
+    if o is None:
+        return {"status": "reproduced", "detail": f"{what} crashed: {r['stderr_tail'][-160:]}", "tried": [r]}
+    el = o.get("elapsed_us", 0)
+    if o.get("ret") == 0 and el < t_us:
+        return {"status": "reproduced", "detail": f"{what} returned 0 after {el}us, earlier than the requested {t_us}us", "tried": [r]}
+    if el > t_us + 1000 + 15000 + t_us // 5:
+        return {"status": "reproduced", "detail": f"{what} returned after {el}us, requested {t_us}us", "tried": [r]}
+    return {"status": "not_reproduced", "detail": f"{what}: elapsed {el}us for a requested {t_us}us", "tried": [r]}
+
+
+@replayer("c14_select_any_timeval")
+def _replay_select_any(prop, harness, rec):
+    sec, usec = _int(rec, 0), _int(rec, 1)
+    if sec is None or usec is None or sec < 0 or usec < 0:
+        return {"status": "unavailable", "detail": "could not decode the counterexample"}
+    return _timed_native(["select", sec, usec], sec * 1_000_000 + usec, f"select(tv_sec={sec}, tv_usec={usec})")
+
+
+@replayer("c14_poll_any_timeout")
+def _replay_poll_any(prop, harness, rec):
+    t = _int(rec, 0)
+    if t is None:
+        return {"status": "unavailable", "detail": "could not decode the counterexample"}
+    if t < 0:
+        t_us = 10 ** 12
+    else:
+        t_us = t * 1000
+    return _timed_native(["poll", t], t_us, f"poll(timeout={t}ms)")
 
 
 @replayer("c14_select_invalid")
